@@ -2,6 +2,7 @@
 the number of sweeps is deliberately not compared: a second run legitimately needs fewer, rows already exist)."""
 import random
 
+import engine
 import streams
 from checks._folcommon import tabs_of, worlds_of
 from common import sub_seed, size, parse_q
@@ -43,6 +44,7 @@ def oracle(rec):
     if len(ts) < 2:
         return None
     first, last = ts[0][3], ts[-1][3]
+    repro = not rec.get("disagreements")          # the Lean model computes exactly what the implementation computed on this program
     contra = any(o == "c 1" for o in rec["impl"] if o)
     fg = any(n.get("fully_grounded") for n in rec["prog"]["kb"]["nodes"])
     qd = any(n["kind"] in ("forall", "exists") for n in rec["prog"]["kb"]["nodes"])
@@ -51,12 +53,12 @@ def oracle(rec):
             b2 = last.get(i, {}).get(g)
             if b2 != b:
                 return {"problem": "bounds after reset_bounds()+infer() differ from the first run", "formula": i, "grounding": g,
-                        "first": list(map(str, b)), "again": None if b2 is None else list(map(str, b2)), "contradictory_data": contra, "fully_grounded": fg, "quantified": qd}
+                        "first": list(map(str, b)), "again": None if b2 is None else list(map(str, b2)), "contradictory_data": contra, "fully_grounded": fg, "quantified": qd, "model_reproduces": repro}
     for i, rows in last.items():
         for g, b in rows.items():
             if g not in first.get(i, {}):
                 return {"problem": "second run has a grounding the first run did not have", "formula": i, "grounding": g,
-                        "contradictory_data": contra, "fully_grounded": fg, "quantified": qd}
+                        "contradictory_data": contra, "fully_grounded": fg, "quantified": qd, "model_reproduces": repro}
     if rec["meta"]["errors"]:
         return {"exception": rec["meta"]["errors"]}
     return None
@@ -69,16 +71,22 @@ def run(rep, tier, seed):
     w = streams.fix_prog(json.load(open(os.path.join(VERIF, "corpus/C16/known_d11_contradictory_rerun.json")))["program"])
     w["facts"] = [tuple(f) for f in w["facts"]]
     wrec = shrink.run_one("fol", "run_fol_program", w)
+    if "crash" not in wrec:
+        engine.model_outputs([wrec])
+        wrec["disagreements"] = engine.compare_record(wrec, {"tables", "reported"})[0]
     wbad = None if "crash" in wrec else oracle(wrec)
     rep.extra["known_finding_D11_witness_reproduces"] = bool(wbad)
-    if wbad and wbad.get("contradictory_data"):
+    if wbad and wbad.get("contradictory_data") and wbad.get("model_reproduces"):
         rep.enable_known("D11")
     w = streams.fix_prog(json.load(open(os.path.join(VERIF, "corpus/C16/known_d14_fully_grounded_growth.json")))["program"])
     w["facts"] = [tuple(f) for f in w["facts"]]
     wrec = shrink.run_one("fol", "run_fol_program", w)
+    if "crash" not in wrec:
+        engine.model_outputs([wrec])
+        wrec["disagreements"] = engine.compare_record(wrec, {"tables", "reported"})[0]
     wbad = None if "crash" in wrec else oracle(wrec)
     rep.extra["known_finding_D14_witness_reproduces"] = bool(wbad)
-    if wbad and wbad.get("quantified") and not wbad.get("contradictory_data"):
+    if wbad and wbad.get("quantified") and not wbad.get("contradictory_data") and wbad.get("model_reproduces"):
         rep.enable_known("D14")
     # corpus: minimised past failures (everything in corpus/C16 that is not a known-finding witness) run first
     cprogs = []
